@@ -340,6 +340,48 @@ check_raw(const unsigned char *in, size_t n, int sof, int srcchunk, int sinkchun
     vh_fail("decode-calls", key, "input=%s: still not at the end after %zu calls", vh_hex(in, n), n + 2);
 }
 
+/* two decoders at work alternately - one classic, one start-of-frame, each on its own stream, one decode call at
+ * a time: every call must still match that stream's reference decoder (nothing of a context may live outside it) */
+static void
+check_interleaved(const unsigned char *in1, size_t n1, const unsigned char *in2, size_t n2, int srcchunk, int sinkchunk)
+{
+    const char *key = modekey(2, srcchunk, sinkchunk);
+    RFC1055Context ctx[2];
+    struct refdec rd[2];
+    struct tsrc ts[2];
+    Source src[2];
+    size_t rpos[2] = { 0, 0 };
+    int done[2] = { 0, 0 };
+    const unsigned char *in[2] = { in1, in2 };
+    const size_t n[2] = { n1, n2 };
+    for (int k = 0; k < 2; k++) {
+        ctx_setup(&ctx[k], k);
+        refdec_init(&rd[k], k);
+        mk_source(&src[k], &ts[k], srcchunk, vh_arena_copy(in[k], n[k]), n[k]);
+    }
+    for (unsigned call = 0; call < 2 * (n1 + n2 + 4) && !(done[0] && done[1]); call++) {
+        int k = (int)(call & 1);
+        if (done[k])
+            k = !k;
+        Sink snk;
+        static struct tsink tk;
+        mk_sink(&snk, &tk, sinkchunk);
+        int rc = rfc1055_decode(&ctx[k], &src[k], &snk);
+        unsigned char rout[256];
+        size_t routn = 0;
+        int rrc = refdec_call(&rd[k], in[k], n[k], &rpos[k], rout, &routn);
+        if (rc != rrc || ts[k].pos != rpos[k] || (rc == 1 && (tk.n != routn || memcmp(tk.buf, rout, routn) != 0))) {
+            vh_fail("interleaved-decoders", key, "streams %s (classic) and %s (start-of-frame), call %u on the %s one: rc=%d "
+                    "reference %d, consumed %zu reference %zu", vh_hex(in1, n1 > 20 ? 20 : n1), vh_hex(in2, n2 > 20 ? 20 : n2), call,
+                    k ? "second" : "first", rc, rrc, ts[k].pos, rpos[k]);
+            return;
+        }
+        if (rc == -ENODATA)
+            done[k] = 1;
+    }
+    VH_COUNT("two decoders interleaved call by call");
+}
+
 /* garbage prefix followed by three well-formed non-empty frames */
 static const unsigned char P0[] = { 0x41 };
 static const unsigned char P1[] = { END };
@@ -700,6 +742,10 @@ u_random(uint64_t idx, void *arg)
             vh_case_tag("garbage");
             check_garbage(p, rn > 16 ? 16 : rn, cfg & 1, (cfg >> 1) & 1, (cfg >> 2) & 1, (unsigned)(idx + (uint64_t)k));
             VH_COUNT("random octets as raw decoder input");
+            /* the same octets, control-heavy, to two decoders working alternately */
+            size_t half = rn / 2;
+            vh_case_tag("interleaved");
+            check_interleaved(p, half, p + half, rn - half, (cfg >> 1) & 1, (cfg >> 2) & 1);
         }
         if (mode == 2)
             VH_COUNT("random payload of control characters only (worst-case length)");
@@ -724,6 +770,7 @@ harness_run(void)
         vh_unit("random", i, u_random, NULL);
     vh_require("every octet value behind an escape octet as raw decoder input");
     vh_require("random octets as raw decoder input");
+    vh_require("two decoders interleaved call by call");
     static const char *req[] = { "payload encoded, compared and round-tripped", "raw input: frame delivered",
                                  "raw input: illegal sequence reported", "raw input: source end returned unchanged",
                                  "garbage: prefix empty or ending in a delimiter (all three frames required)",
